@@ -205,7 +205,7 @@ func (c *c11Checker) After(w *World, ev *Event) []Failure {
 					"explained-by-unescaped-percent", fmt.Sprint(pairsEqual(back, dec))))
 			} else if r, err := url.Parse(w.Cur[sh.Of].Href); err == nil && w.U[sh.Of].QW == 1 {
 				// and through the whole URL: url.Parse(href).SearchParams()
-				back2 := readList(r.SearchParams())
+				back2 := readListSynced(r.SearchParams())
 				if !pairsEqual(back2, real) {
 					fs = append(fs, fail("C11.codec.roundtrip-href", "handle", fmt.Sprintf("s%d", sid), "list", pairsString(real), "href", q(w.Cur[sh.Of].Href), "parsed-back", pairsString(back2), "pairs", pairsJoin(real)))
 				}
@@ -274,7 +274,7 @@ func (c *c12Checker) After(w *World, ev *Event) []Failure {
 				if err != nil || f == nil {
 					continue
 				}
-				want := readList(f.SearchParams())
+				want := readListSynced(f.SearchParams())
 				if o.Query == "" {
 					want = nil
 				}
@@ -310,7 +310,7 @@ func (c *c13Checker) ensureTwin(w *World, id int) {
 	}
 	if len(uh.SPs) > 0 {
 		tsp := t.SearchParams()
-		tl := readList(tsp)
+		tl := readListSynced(tsp)
 		for _, sid := range uh.SPs {
 			if !pairsExact(tl, w.CurL[sid]) {
 				c.dropped++
@@ -379,7 +379,7 @@ func (c *c13Checker) After(w *World, ev *Event) []Failure {
 		sh := w.S[ev.CreatedS]
 		if uh := w.U[sh.Of]; uh != nil && uh.Twin != nil {
 			tsp := uh.Twin.U.SearchParams()
-			if !pairsExact(readList(tsp), w.CurL[ev.CreatedS]) {
+			if !pairsExact(readListSynced(tsp), w.CurL[ev.CreatedS]) {
 				// the object's list is not the parse of its query (e.g. cloned from a list-written state
 				// whose codec does not round-trip: C11's business): no twin from here on
 				uh.Twin = nil
@@ -441,7 +441,7 @@ func (c *c13Checker) After(w *World, ev *Event) []Failure {
 		}
 		for _, sid := range uh.SPs {
 			if tsp := c.twinSP[sid]; tsp != nil {
-				if tl := readList(tsp); !pairsEqual(tl, w.CurL[sid]) {
+				if tl := readListSynced(tsp); !pairsEqual(tl, w.CurL[sid]) {
 					fs = append(fs, fail("C13.reflects", "object", fmt.Sprintf("s%d(params of u%d, %s of u%d)", sid, ev.Target, uh.Prov, uh.From), "op", ev.Op.String(), "derived", pairsString(w.CurL[sid]), "pristine-twin", pairsString(tl)))
 					uh.Twin = nil
 					return fs
